@@ -295,6 +295,7 @@ class FSMOperateStartParenthesis(FSMOperate):
         memory.pos_now += 1
         memory.pos_start = memory.pos_now
         memory.stack.append([])
+        memory.brackets.append("(")
         return True
 
 
@@ -303,8 +304,8 @@ class FSMOperateEndParenthesis(FSMOperate):
 
     def execute(self, memory: FSMMemory, ch: str):
         """执行操作"""
-        if len(memory.stack) <= 1:
-            raise LexicalParseError("插入语结束标记数量大于开始标记数量")
+        if len(memory.stack) <= 1 or memory.brackets.pop() != "(":
+            raise LexicalParseError("插入语结束标记数量大于开始标记数量，或与开始标记的类型不一致")
         memory.pos_now += 1
         memory.pos_start = memory.pos_now
         tokens = memory.stack.pop()
@@ -320,6 +321,7 @@ class FSMOperateStartSlice(FSMOperate):
         memory.pos_now += 1
         memory.pos_start = memory.pos_now
         memory.stack.append([])
+        memory.brackets.append("[")
         return True
 
 
@@ -328,8 +330,8 @@ class FSMOperateEndSlice(FSMOperate):
 
     def execute(self, memory: FSMMemory, ch: str):
         """执行操作"""
-        if len(memory.stack) <= 1:
-            raise LexicalParseError("结束语结束标记数量大于开始标记数量")
+        if len(memory.stack) <= 1 or memory.brackets.pop() != "[":
+            raise LexicalParseError("结束语结束标记数量大于开始标记数量，或与开始标记的类型不一致")
         memory.pos_now += 1
         memory.pos_start = memory.pos_now
         tokens = memory.stack.pop()
